@@ -334,6 +334,6 @@ pub fn arb_case(p: TreeParams) -> BoxedStrategy<Case> {
 
 fn run(ctx: &mut Ctx) {
     let cases = ctx.share(ctx.tier.pick(100_000, 1_000_000));
-    let p = ctx.tier.pick(TreeParams::quick().with_big(1), TreeParams::thorough().with_big(2));
+    let p = ctx.tier.pick(TreeParams::quick().with_big(1), TreeParams::thorough().with_big(1));
     run_strategy(ctx, "C11", "functions", cases, arb_case(p), check);
 }
